@@ -148,6 +148,12 @@ class Arr:
     def ravel(self):
         raise Undecided("ravel() is modelled only in the flat-view contracts")
 
+    def tolist(self):
+        return self
+
+    def tobytes(self):
+        return Bytes("array", self)
+
     def __iter__(self):
         s = self.axes[0].size
         if s.concrete:
@@ -451,6 +457,16 @@ class Arr:
             return _cast(ite(cond, getv(tuple(newc)), old.at(*c)), self.dtype)
         self._fn = fn
         self._memo = {}
+
+
+class Bytes:
+    """Abstract byte string: injective image of its payload (A7)."""
+
+    def __init__(self, kind, payload):
+        self.kind, self.payload = kind, payload
+
+    def encode(self):
+        return self
 
 
 def _cast(v, dtype):
